@@ -107,17 +107,27 @@ func vImports(n int, sparse bool) {
 	}
 	// symbolically, the first package is the module's root package (import path = module path, directory = module directory)
 	rootPkg := !sparse && verifsym.Bool()
+	// symbolically, the last package lives in a nested directory whose path repeats
+	// the module path (example.com/m/cmd/example.com/m): legal, and a trap for
+	// code that derives the directory by textual surgery on the import path
+	nestedLast := !sparse && n >= 2 && verifsym.Bool()
+	rel := func(i int) string {
+		if nestedLast && i == n-1 {
+			return "cmd/" + mod
+		}
+		return names[i]
+	}
 	pp := func(i int) string {
 		if rootPkg && i == 0 {
 			return mod
 		}
-		return mod + "/" + names[i]
+		return mod + "/" + rel(i)
 	}
 	pd := func(i int) string {
 		if rootPkg && i == 0 {
 			return root
 		}
-		return root + "/" + names[i]
+		return root + "/" + rel(i)
 	}
 	var patterns []string
 	for i, d := range direct {
